@@ -15,6 +15,8 @@ func (f Root) Append(buf []byte, bracket, first bool) []byte {
 func (f Root) locate(pp Expr, data any, rest Expr, max int) (locs []Expr) {
 	if 0 < len(rest) {
 		locs = rest[0].locate(append(pp, f), data, rest[1:], max)
+	} else { // the data itself is what the path selects
+		locs = locateAppendFrag(locs, pp, f)
 	}
 	return
 }
